@@ -96,6 +96,27 @@ fn check_pair(ia: usize, ib: usize) -> Verdict {
             }
         }
     }
+    // magnitudes at the ends of the double range (a result may overflow to ±INF or underflow to 0:
+    // that is the IEEE answer of the formula, not a reason to refuse): same dimension <=> Ok; a finite
+    // formula result is matched to 1e-9 relative
+    for x in [f64::MAX, -f64::MAX, 1e303, -1e305, 1e300, 1e285, 5e-324, -5e-324, 1e-310, 2.2250738585072014e-308] {
+        let got = a.convert_to(x, b);
+        let same_dim = ra.dims == rb.dims;
+        match got {
+            Ok(y) => {
+                let want = ((x * ra.scale + ra.offset) - rb.offset) / rb.scale;
+                let close = if want.is_finite() && want != 0.0 { y.is_finite() && ((y - want) / want).abs() <= 1e-9 } else { true };
+                if !same_dim || y.is_nan() || !close {
+                    return Err(("convert-extreme-magnitude".into(), format!("{x:e} {} -> {} = {y:e}, the formula gives {want:e} (same dimension: {same_dim})", ra.name(), rb.name())));
+                }
+            }
+            Err(e) => {
+                if same_dim {
+                    return Err(("convert-extreme-magnitude-refused".into(), format!("{x:e} {} -> {}: {e}", ra.name(), rb.name())));
+                }
+            }
+        }
+    }
     // non-finite quantities convert like any other: same dimension => Ok(the IEEE result of the formula)
     for x in [f64::INFINITY, f64::NEG_INFINITY, f64::NAN] {
         let got = a.convert_to(x, b);
@@ -199,7 +220,7 @@ fn sig_for(stage: &str, ia: usize, ib: usize) -> String {
 
 pub fn run(tier: Tier) -> i32 {
     let mut run = Run::new("C16", tier, "exploration");
-    run.rule = "all ordered pairs of the units of units.txt x 17 magnitudes (round ones, full-mantissa ones such as pi, 1/3, 0.1+0.2, very small and very large normal doubles) for convert_to (+ back), ±INF and NaN through convert_to, unit * and /, Number + - * / over 15 operand pairs (incl. NaN, ±INF, ±0, subnormal, overflow on either side); reference = scale/offset/dimension table parsed by the harness; non-trivial = ordered pair of two different units".into();
+    run.rule = "all ordered pairs of the units of units.txt x 17 magnitudes (round ones, full-mantissa ones such as pi, 1/3, 0.1+0.2, very small and very large normal doubles) for convert_to (+ back), ±INF and NaN and ten magnitudes at the ends of the double range (f64::MAX, 1e285 .. 1e305, subnormals: never refused for their size) through convert_to, unit * and /, Number + - * / over 15 operand pairs (incl. NaN, ±INF, ±0, subnormal, overflow on either side); reference = scale/offset/dimension table parsed by the harness; non-trivial = ordered pair of two different units".into();
     run.assume("forward error bounds 8ε/32ε·(|x·sa|+|oa|+|ob|)/|s| derived from the operation count of the conversion formula");
     run.assume("unit product/quotient scale compared with the library's own matching tolerance 10^-3");
     run.assume("+/- with exactly one unit-less operand is left unconstrained (the statement does not say)");
